@@ -11,12 +11,14 @@ from workflows.runtime.types.ticks import TickAddEvent, TickIdleCheck, TickWaite
 
 IDLE_SNAPS = []     # dicts, appended at each idle publication
 DELIVERED = {}      # run_id -> {id(tick): tick} delivered to the run's mailbox and not yet processed
+RUNNERS = {}        # run_id -> the live _ControlLoopRunner (its .state is the live engine state)
 _installed = False
 
 
 def reset():
     IDLE_SNAPS.clear()
     DELIVERED.clear()
+    RUNNERS.clear()
 
 
 def install():
@@ -50,6 +52,7 @@ def install():
         return await orig_cmd(self, command)
 
     async def _process_tick(self, tick):
+        RUNNERS[self.adapter.run_id] = self
         DELIVERED.get(self.adapter.run_id, {}).pop(id(tick), None)
         return await orig_tick(self, tick)
 
